@@ -3,8 +3,11 @@
 #include <string_theory/string>
 #include <string_theory/format>
 
+#include <filesystem>
+
 #include "common/verif.h"
 #include "ref/ref_format.h"
+#include "ref/ref_format_ext.h"
 #include "gen/gen_format.h"
 
 using verif::Case;
@@ -19,6 +22,32 @@ const verif::Info verif_info = {
     "ST::format(assume_valid,..)). Oracle: ref/ref_format.h interpreter (std::to_chars digits). Non-trivial: a field in which >= 2 of {sign, prefix, padding, precision cut} "
     "interact, or >= 2 fields of which one is selected by &N; distinct by decoded-case hash.",
     true, "exploration"};
+
+// ----- user-defined types formatted through the documented extension point (a format_type overload found by ADL) ---------
+namespace cx {
+struct Left { const char *p; size_t n; };          // ST::format_string(format, output, p, n)                 default_alignment omitted (= left)
+struct LeftX { const char *p; size_t n; };         // ST::format_string(format, output, p, n, ST::align_left)
+struct Right { const char *p; size_t n; };         // ST::format_string(format, output, p, n, ST::align_right)
+struct U8Left { const char8_t *p; size_t n; };     // the char8_t overload of format_string, default_alignment omitted
+struct U8Right { const char8_t *p; size_t n; };    // the char8_t overload, ST::align_right
+struct Pair { long long a; unsigned b; };          // two library formatters with the same specification: a '+' b "i" (the shape of the std::complex formatter)
+struct Fixed { int unused; };                      // ignores the specification, writes a literal through format_writer::append(const char (&)[N])
+struct MacroInt { short n; };                      // declared/defined with the deprecated ST_DECL_FORMAT_TYPE / ST_FORMAT_TYPE / ST_FORMAT_FORWARD macros
+struct MacroText { const char *s; };               // ... forwarding with ST_INVOKE_FORMATTER
+inline void format_type(const ST::format_spec &format, ST::format_writer &output, const Left &v) { ST::format_string(format, output, v.p, v.n); }
+inline void format_type(const ST::format_spec &format, ST::format_writer &output, const LeftX &v) { ST::format_string(format, output, v.p, v.n, ST::align_left); }
+inline void format_type(const ST::format_spec &format, ST::format_writer &output, const Right &v) { ST::format_string(format, output, v.p, v.n, ST::align_right); }
+inline void format_type(const ST::format_spec &format, ST::format_writer &output, const U8Left &v) { ST::format_string(format, output, v.p, v.n); }
+inline void format_type(const ST::format_spec &format, ST::format_writer &output, const U8Right &v) { ST::format_string(format, output, v.p, v.n, ST::align_right); }
+inline void format_type(const ST::format_spec &format, ST::format_writer &output, const Pair &v) {
+    ST::format_type(format, output, v.a); output.append_char('+'); ST::format_type(format, output, v.b); output.append("i");
+}
+inline void format_type(const ST::format_spec &, ST::format_writer &output, const Fixed &) { output.append("<fixed>"); }
+ST_DECL_FORMAT_TYPE(const MacroInt &);
+ST_FORMAT_TYPE(const MacroInt &) { ST_FORMAT_FORWARD(value.n); }
+ST_DECL_FORMAT_TYPE(MacroText);
+ST_FORMAT_TYPE(MacroText) { ST_INVOKE_FORMATTER(format, output, value.s); }
+}  // namespace cx
 
 namespace {
 
@@ -124,6 +153,565 @@ bool sweep_build(const SweepPoint &p, std::string &fmt, std::vector<fg::Value> &
     return true;
 }
 
+// ===========================================================================================================================
+// Extension (first byte 0xE0..0xFD): argument kinds, arities, entry points and sizes the base generator does not reach.
+// ===========================================================================================================================
+enum XKind { XK_VALUE, XK_CHARBUF, XK_WBUF, XK_U16BUF, XK_U32BUF, XK_NULL, XK_PATH, XK_LEFT, XK_LEFTX, XK_RIGHT, XK_U8LEFT, XK_U8RIGHT,
+             XK_PAIR, XK_FIXED, XK_MACROINT, XK_MACROTEXT };
+const char *xkind_name(int k) {
+    static const char *n[] = {"", "ST::char_buffer", "ST::wchar_buffer", "ST::utf16_buffer", "ST::utf32_buffer", "ST::null", "std::filesystem::path",
+                              "user type{format_string(p,n)}", "user type{format_string(p,n,align_left)}", "user type{format_string(p,n,align_right)}",
+                              "user type{format_string(char8_t*,n)}", "user type{format_string(char8_t*,n,align_right)}", "user type{a '+' b \"i\"}",
+                              "user type{append(\"<fixed>\")}", "user type{ST_FORMAT_FORWARD(short)}", "user type{ST_INVOKE_FORMATTER(const char*)}"};
+    return n[k];
+}
+
+struct XArg {
+    int kind = XK_VALUE;
+    fg::Value v;                    // XK_VALUE; for the other kinds: the exact-size storage the argument points into
+    ST::char_buffer cb; ST::wchar_buffer wb; ST::utf16_buffer b16; ST::utf32_buffer b32;
+    std::filesystem::path path;
+    long long pa = 0; unsigned pb = 0; short ms = 0;
+    refx::Arg ra;                   // what the reference interpreter is told
+    bool unusable = false;          // the platform did not keep the bytes (path): case discarded
+    bool intlike() const { return ra.kind == refx::Arg::PAIR || (ra.kind == refx::Arg::PLAIN && ra.a.is_integer()); }
+    std::string show() const {
+        if (kind == XK_VALUE) return v.show();
+        std::string o = xkind_name(kind);
+        if (kind == XK_PAIR) return o + " " + verif::num(pa) + "," + verif::unum(pb);
+        if (kind == XK_MACROINT) return o + " " + verif::num(ms);
+        if (kind == XK_FIXED || kind == XK_NULL) return o;
+        return o + " " + verif::quoted(v.utf8, 40);
+    }
+};
+
+// f(x) with x the argument in its real C++ type
+template <class F> auto xvisit(const XArg &a, F &&f) -> decltype(f(0)) {
+    switch (a.kind) {
+    case XK_CHARBUF: return f(a.cb);
+    case XK_WBUF: return f(a.wb);
+    case XK_U16BUF: return f(a.b16);
+    case XK_U32BUF: return f(a.b32);
+    case XK_NULL: return f(ST::null);
+    case XK_PATH: return f(a.path);
+    case XK_LEFT: return f(cx::Left{a.v.xc->data(), a.v.xc->size()});
+    case XK_LEFTX: return f(cx::LeftX{a.v.xc->data(), a.v.xc->size()});
+    case XK_RIGHT: return f(cx::Right{a.v.xc->data(), a.v.xc->size()});
+    case XK_U8LEFT: return f(cx::U8Left{reinterpret_cast<const char8_t *>(a.v.xc->data()), a.v.xc->size()});
+    case XK_U8RIGHT: return f(cx::U8Right{reinterpret_cast<const char8_t *>(a.v.xc->data()), a.v.xc->size()});
+    case XK_PAIR: return f(cx::Pair{a.pa, a.pb});
+    case XK_FIXED: return f(cx::Fixed{0});
+    case XK_MACROINT: return f(cx::MacroInt{a.ms});
+    case XK_MACROTEXT: return f(cx::MacroText{a.v.xc->data()});
+    default: return fg::visit(a.v, f);
+    }
+}
+
+// Run-time typed argument for lists of 0..12 entries: the extension point forwards to the formatter of the real type,
+// looked up the way the library's own make_formatter_ref does it (unqualified call, argument-dependent lookup).
+struct XLibArg { const XArg *a; };
+inline void format_type(const ST::format_spec &format, ST::format_writer &output, const XLibArg &a) {
+    xvisit(*a.a, [&](const auto &x) -> int { format_type(format, output, x); return 0; });
+}
+template <class F> auto xcall_n(const std::vector<XArg> &a, F &&f) -> decltype(f()) {
+#define XL(i) XLibArg{&a[i]}
+    switch (a.size()) {
+    case 0: return f();
+    case 1: return f(XL(0));
+    case 2: return f(XL(0), XL(1));
+    case 3: return f(XL(0), XL(1), XL(2));
+    case 4: return f(XL(0), XL(1), XL(2), XL(3));
+    case 5: return f(XL(0), XL(1), XL(2), XL(3), XL(4));
+    case 6: return f(XL(0), XL(1), XL(2), XL(3), XL(4), XL(5));
+    case 7: return f(XL(0), XL(1), XL(2), XL(3), XL(4), XL(5), XL(6));
+    case 8: return f(XL(0), XL(1), XL(2), XL(3), XL(4), XL(5), XL(6), XL(7));
+    case 9: return f(XL(0), XL(1), XL(2), XL(3), XL(4), XL(5), XL(6), XL(7), XL(8));
+    case 10: return f(XL(0), XL(1), XL(2), XL(3), XL(4), XL(5), XL(6), XL(7), XL(8), XL(9));
+    case 11: return f(XL(0), XL(1), XL(2), XL(3), XL(4), XL(5), XL(6), XL(7), XL(8), XL(9), XL(10));
+    default: return f(XL(0), XL(1), XL(2), XL(3), XL(4), XL(5), XL(6), XL(7), XL(8), XL(9), XL(10), XL(11));
+    }
+#undef XL
+}
+
+// The public ways to obtain an ST::string from a format call
+enum { E_FORMAT, E_ASSUME, E_CHECK, E_SUBST, E_UDL, E_LATIN1, E_COUNT };
+const char *entry_name(int e) {
+    static const char *n[] = {"ST::format(fmt, ..)", "ST::format(assume_valid, fmt, ..)", "ST::format(check_validity, fmt, ..)", "ST::format(substitute_invalid, fmt, ..)",
+                              "operator\"\"_stfmt(fmt)(..)", "ST::format_latin_1(fmt, ..)"};
+    return n[e];
+}
+template <class... A> Outcome call_entry(int e, const char *fs, size_t n, A &&...a) {
+    switch (e) {
+    case E_FORMAT: return observe([&] { return ST::format(fs, a...); });
+    case E_ASSUME: return observe([&] { return ST::format(ST::assume_valid, fs, a...); });
+    case E_CHECK: return observe([&] { return ST::format(ST::check_validity, fs, a...); });
+    case E_SUBST: return observe([&] { return ST::format(ST::substitute_invalid, fs, a...); });
+    case E_UDL: return observe([&] { return ST::literals::operator""_stfmt(fs, n)(a...); });
+    default: return observe([&] { return ST::format_latin_1(fs, a...); });
+    }
+}
+template <class... A> Outcome call_entry_typed(int e, const char *fs, size_t n, A &&...a) {      // typed calls: two entry points (compile time)
+    if (e == E_UDL) return observe([&] { return ST::literals::operator""_stfmt(fs, n)(a...); });
+    return observe([&] { return ST::format(fs, a...); });
+}
+
+// What the property demands of one entry point, given the specified rendering.
+std::string judge(int e, const Outcome &o, const std::string &want, bool strict, const char *how) {
+    std::string who = std::string(entry_name(e)) + " [" + how + "]";
+    bool must_equal = true;
+    switch (e) {
+    case E_ASSUME: case E_LATIN1:                // never validates (format_latin_1 is only called for an all-ASCII rendering)
+        if (o.kind != 0) return who + " ended with " + okind(o.kind) + " (" + o.what + "), specified rendering is " + verif::quoted(want, 200);
+        break;
+    case E_SUBST:                                // never throws; the repaired text of an ill-formed rendering belongs to C02
+        if (o.kind != 0) return who + " ended with " + okind(o.kind) + " (" + o.what + "), specified rendering is " + verif::quoted(want, 200);
+        must_equal = strict;
+        break;
+    default:                                     // validating entry points: unicode_error only for a rendering that is not well-formed UTF-8
+        if (o.kind == 4) {
+            if (strict) return who + " threw unicode_error (" + o.what + ") although the specified rendering " + verif::quoted(want, 200) + " is well-formed UTF-8";
+            return std::string();
+        }
+        if (o.kind != 0) return who + " ended with " + okind(o.kind) + " (" + o.what + "), specified rendering is " + verif::quoted(want, 200);
+        break;
+    }
+    if (must_equal && o.bytes != want) {
+        size_t k = 0; while (k < o.bytes.size() && k < want.size() && o.bytes[k] == want[k]) k++;
+        return who + " gives " + verif::unum(o.bytes.size()) + " bytes, the specified rendering has " + verif::unum(want.size()) + "; first difference at byte " + verif::unum(k) +
+               ": got " + verif::quoted(o.bytes.substr(k > 20 ? k - 20 : 0, 60), 60) + ", specified " + verif::quoted(want.substr(k > 20 ? k - 20 : 0, 60), 60);
+    }
+    return std::string();
+}
+
+struct XCtx {      // classification of an extended call (labels)
+    bool nul = false, long_text = false, bigpad = false, longlit = false, ignored = false, prec_num = false, char8c = false, buffer = false, path = false,
+         custom = false, right_default = false, macro = false, manyargs = false, bigindex = false, multiref = false, nofields = false, typedsig = false,
+         udl_literal = false, invalid_mode = false;
+    int bigruns = 0, longlits = 0;
+};
+struct XCall {
+    std::string fmt;
+    std::vector<XArg> args;
+    int sig = -1;          // >= 0: additionally called with the fixed C++ signature `sig`
+    int sub = 0;
+    XCtx c;
+    std::vector<refx::Arg> rargs() const { std::vector<refx::Arg> r; for (const XArg &a : args) r.push_back(a.ra); return r; }
+};
+
+bool ty_is_cstring(fg::Ty t) { return t == fg::T_CSTR || t == fg::T_WCSTR || t == fg::T_U16CSTR || t == fg::T_U32CSTR || t == fg::T_U8CSTR; }
+std::string cut_at_nul(const std::string &s) { size_t p = s.find('\0'); return p == std::string::npos ? s : s.substr(0, p); }
+
+// scalar values of a text argument: short (one input byte each), or long (a cycled palette; lengths at and around 256/1024/4096),
+// optionally with embedded U+0000
+void xscalars(verif::Reader &r, XCtx &c, bool allow_nul, bool allow_long, bool force_nul, std::vector<uint32_t> &cps) {
+    unsigned m = (unsigned)r.range(0, 7);
+    if (allow_long && m == 7) {
+        static const uint16_t lens[] = {256, 255, 257, 1023, 1024, 1025, 4095, 4096, 4097, 300, 2000};
+        static const uint32_t pal[] = {'a', 'b', 'c', 0xE9, 'd', 0x20AC, 'e', 'f', 0x1F600, 'g'};
+        size_t n = r.pick(lens); uint8_t style = r.u8();
+        for (size_t i = 0; i < n; i++) cps.push_back((style & 1) ? pal[(i + style / 2) % 10] : (uint32_t)('a' + (i + style / 2) % 26));
+        c.long_text = true;
+    } else {
+        static const uint16_t lens[] = {0, 1, 2, 3, 4, 5, 6, 8, 11, 15, 16, 17, 31, 40, 64, 120};
+        size_t n = m < 4 ? r.range(0, 8) : r.pick(lens);
+        fg::gen_scalars(r, n, false, cps);
+    }
+    if (force_nul || (allow_nul && r.chance(64))) {
+        cps.insert(cps.begin() + (long)r.idx(cps.size() + 1), 0u);
+        if (r.flag()) cps.insert(cps.begin() + (long)r.idx(cps.size() + 1), 0u);
+        c.nul = true;
+    }
+}
+
+void xset_value(verif::Reader &r, XCtx &c, XArg &x, fg::Ty t, bool allow_long, bool force_nul = false) {
+    x.kind = XK_VALUE;
+    if (fg::ty_is_int(t)) { x.v.set_int(t, fg::gen_int_bits(r, t)); x.ra = refx::Arg::plain(x.v.to_ref()); }
+    else if (t == fg::T_BOOL) { x.v.set_bool(r.flag()); x.ra = refx::Arg::plain(x.v.to_ref()); }
+    else {
+        std::vector<uint32_t> cps; xscalars(r, c, true, allow_long, force_nul, cps);
+        x.v.set_text(t, cps);
+        // a C-string overload sees the text up to its first NUL; every (pointer, length) form keeps the whole text
+        x.ra = refx::Arg::plain(ref::Arg::str(ty_is_cstring(t) ? cut_at_nul(x.v.utf8) : x.v.utf8));
+    }
+}
+void xset_kind(verif::Reader &r, XCtx &c, XArg &x, int kind, bool allow_long) {
+    x.kind = kind;
+    std::vector<uint32_t> cps;
+    switch (kind) {
+    case XK_CHARBUF: xscalars(r, c, true, allow_long, false, cps); x.v.set_text(fg::T_SV, cps); x.cb = ST::char_buffer(x.v.xc->data(), x.v.xc->size()); break;
+    case XK_WBUF: xscalars(r, c, true, allow_long, false, cps); x.v.set_text(fg::T_WSV, cps); x.wb = ST::wchar_buffer(x.v.xw->data(), x.v.xw->size()); break;
+    case XK_U16BUF: xscalars(r, c, true, allow_long, false, cps); x.v.set_text(fg::T_U16SV, cps); x.b16 = ST::utf16_buffer(x.v.x16->data(), x.v.x16->size()); break;
+    case XK_U32BUF: xscalars(r, c, true, allow_long, false, cps); x.v.set_text(fg::T_U32SV, cps); x.b32 = ST::utf32_buffer(x.v.x32->data(), x.v.x32->size()); break;
+    case XK_NULL: x.v.utf8.clear(); break;
+    case XK_PATH: {
+        static const char *shapes[] = {"a//b", "//server/x", "/", "", "a/", "./a/../b", "///", "dir/sub//file.txt", "a/./b", ".."};
+        if (r.flag()) { for (const char *p = r.pick(shapes); *p; p++) cps.push_back((unsigned char)*p); }
+        else { xscalars(r, c, false, allow_long, false, cps); if (!cps.empty() && r.flag()) { cps.insert(cps.begin() + (long)r.idx(cps.size() + 1), (uint32_t)'/'); cps.insert(cps.begin() + (long)r.idx(cps.size() + 1), (uint32_t)'/'); } }
+        x.v.set_text(fg::T_STDSTRING, cps);
+        x.path = std::filesystem::path(x.v.ss);
+        std::u8string back = x.path.u8string();
+        if (std::string(reinterpret_cast<const char *>(back.data()), back.size()) != x.v.utf8) x.unusable = true;
+        break; }
+    case XK_PAIR: x.pa = (long long)fg::gen_int_bits(r, fg::T_LLONG); x.pb = (unsigned)fg::gen_int_bits(r, fg::T_UINT); break;
+    case XK_FIXED: break;
+    case XK_MACROINT: x.ms = (short)fg::gen_int_bits(r, fg::T_SHORT); break;
+    case XK_MACROTEXT: xscalars(r, c, true, allow_long, false, cps); x.v.set_text(fg::T_CSTR, cps); break;
+    default: xscalars(r, c, true, allow_long, false, cps); x.v.set_text(fg::T_SV, cps); break;      // XK_LEFT .. XK_U8RIGHT: (pointer, length) into an exact-size block
+    }
+    switch (kind) {
+    case XK_RIGHT: case XK_U8RIGHT: x.ra = refx::Arg::text_right(x.v.utf8); c.right_default = true; c.custom = true; break;
+    case XK_PAIR: x.ra = refx::Arg::pair(ref::Arg::sint(x.pa), "+", ref::Arg::uint(x.pb), "i"); c.custom = true; break;
+    case XK_FIXED: x.ra = refx::Arg::verbatim("<fixed>"); c.custom = true; break;
+    case XK_MACROINT: x.ra = refx::Arg::plain(ref::Arg::sint(x.ms)); c.macro = true; break;
+    case XK_MACROTEXT: x.ra = refx::Arg::plain(ref::Arg::str(cut_at_nul(x.v.utf8))); c.macro = true; break;
+    case XK_PATH: x.ra = refx::Arg::plain(ref::Arg::str(x.v.utf8)); c.path = true; break;
+    case XK_LEFT: case XK_LEFTX: case XK_U8LEFT: x.ra = refx::Arg::plain(ref::Arg::str(x.v.utf8)); c.custom = true; break;
+    default: x.ra = refx::Arg::plain(ref::Arg::str(x.v.utf8)); c.buffer = true; break;
+    }
+}
+const fg::Ty kIntTypes[] = {fg::T_INT, fg::T_UINT, fg::T_LLONG, fg::T_ULLONG, fg::T_SCHAR, fg::T_UCHAR, fg::T_SHORT, fg::T_USHORT, fg::T_LONG, fg::T_ULONG,
+                            fg::T_CHAR, fg::T_WCHAR, fg::T_CHAR16, fg::T_CHAR32, fg::T_CHAR8};
+const fg::Ty kTextTypes[] = {fg::T_CSTR, fg::T_STSTRING, fg::T_STDSTRING, fg::T_SV, fg::T_WCSTR, fg::T_U16CSTR, fg::T_U32CSTR, fg::T_U8CSTR,
+                             fg::T_WSTRING, fg::T_U16STRING, fg::T_U32STRING, fg::T_U8STRING, fg::T_WSV, fg::T_U16SV, fg::T_U32SV, fg::T_U8SV};
+// any argument; new_only: only the kinds the base generator does not have
+void xgen_arg(verif::Reader &r, XCtx &c, XArg &x, bool allow_long, bool new_only) {
+    unsigned k = new_only ? 10 + (unsigned)r.range(0, 5) : (unsigned)r.range(0, 15);
+    if (k <= 4) xset_value(r, c, x, r.pick(kIntTypes), allow_long);
+    else if (k <= 8) xset_value(r, c, x, r.pick(kTextTypes), allow_long);
+    else if (k == 9) xset_value(r, c, x, fg::T_BOOL, allow_long);
+    else if (k == 10) { static const int b[] = {XK_CHARBUF, XK_WBUF, XK_U16BUF, XK_U32BUF, XK_NULL}; xset_kind(r, c, x, r.pick(b), allow_long); }
+    else if (k == 11) xset_kind(r, c, x, XK_PATH, allow_long);
+    else if (k == 12) { static const int b[] = {XK_LEFT, XK_LEFTX, XK_RIGHT, XK_U8LEFT, XK_U8RIGHT}; xset_kind(r, c, x, r.pick(b), allow_long); }
+    else if (k == 13) xset_kind(r, c, x, r.flag() ? XK_PAIR : XK_MACROINT, allow_long);
+    else if (k == 14) xset_kind(r, c, x, r.flag() ? XK_FIXED : XK_MACROTEXT, allow_long);
+    else xset_value(r, c, x, r.pick(kTextTypes), allow_long, true);        // text with an embedded U+0000, every form
+}
+
+const int kPadRuns[] = {31, 32, 33, 63, 64, 65, 255, 256, 257, 1023, 1024, 1025, 4095, 4096, 4097, 8191, 8192, 8193, 16383, 16384, 16385};
+
+// One "{...}" field for argument x; index 0 = sequential, else &index.
+std::string xgen_field(verif::Reader &r, XCtx &c, const XArg &x, int index) {
+    fg::PSpec sp; sp.index = index;
+    char fcls = 0;
+    auto pick_pad = [&]() {
+        unsigned pm = (unsigned)r.range(0, 3);
+        if (pm == 1) { sp.pad = (unsigned char)fg::kPadChars[r.idx(sizeof fg::kPadChars - 1)]; if (c.invalid_mode && r.chance(60)) sp.pad = 0x80 + (int)r.range(0, 127); }
+        else if (pm == 2) sp.zero = true;
+    };
+    auto pick_width = [&](size_t natural) {
+        switch (r.range(0, 10)) {
+        case 0: sp.width = 0; break;
+        case 1: sp.width = (int)natural - 1; break;
+        case 2: sp.width = (int)natural; break;
+        case 3: sp.width = (int)natural + 1; break;
+        case 4: sp.width = (int)natural + 5; break;
+        case 5: sp.width = 40; break;
+        case 6: sp.width = (int)r.range(1, 24); break;
+        case 7: sp.width = (int)r.range(1, 400); break;
+        case 8: sp.width = (int)natural + (int)r.range(0, 300); break;
+        default:
+            if (c.bigruns < 2) { int run = r.pick(kPadRuns); sp.width = (int)natural + run; c.bigruns++; c.bigpad = true; }
+            else sp.width = (int)natural + 2;
+            break;
+        }
+        if (sp.width < 0) sp.width = 0;
+    };
+    auto ignored_letters = [&]() { if (r.chance(24)) { fcls = "feE"[r.range(0, 2)]; c.ignored = true; } };
+    if (x.intlike()) {
+        const ref::Arg &ia = x.ra.a;
+        bool as_char = r.chance(40);
+        const bool char8 = x.kind == XK_VALUE && x.v.ty == fg::T_CHAR8;
+        if (as_char && char8 && x.v.u >= 0x80) as_char = false;      // a char8_t is a UTF-8 code unit copied verbatim: only values whose encoding is that one byte
+        if (as_char) {
+            sp.cls = 'c'; if (char8) c.char8c = true;
+            if (r.chance(40)) sp.align = 1 + (int)r.range(0, 1);                       // alignment without width: no padding requested
+            if (r.chance(40)) { sp.precision = (int)r.range(0, 12); c.prec_num = true; }  // precision is for text only
+            if (r.chance(40)) { sp.hash = r.flag(); sp.plus = r.flag(); c.ignored = true; }
+        } else {
+            sp.align = (int)r.range(0, 2);
+            pick_pad();
+            sp.hash = r.flag(); sp.plus = r.flag();
+            sp.cls = "\0dxXob"[r.range(0, 5)];
+            if (r.chance(40)) { sp.precision = (int)r.range(0, 12); c.prec_num = true; }
+            ignored_letters();
+            ref::Spec rs; rs.hash = sp.hash; rs.plus = sp.plus; rs.cls = sp.cls;
+            std::string nat; ref::Field fi; bool um = false;
+            ref::render_field(rs, ia, nat, fi, um);
+            pick_width(nat.size());
+        }
+    } else {
+        const std::string text = x.ra.kind == refx::Arg::VERBATIM ? x.ra.sep : x.ra.a.kind == ref::Arg::BOOL ? (x.ra.a.b ? "true" : "false") : x.ra.a.text;
+        sp.align = (int)r.range(0, 2);
+        pick_pad();
+        size_t shown = text.size();
+        switch (r.range(0, 7)) {
+        case 0: case 1: break;
+        case 2: sp.precision = 0; break;
+        case 3: sp.precision = (int)(text.size() ? text.size() - 1 : 0); break;
+        case 4: sp.precision = (int)text.size(); break;
+        case 5: sp.precision = (int)text.size() + 1; break;
+        case 6: sp.precision = (int)r.range(0, text.size() + 2); break;
+        default: { static const int cuts[] = {255, 256, 257, 1023, 1024, 1025, 4095, 4096}; sp.precision = r.pick(cuts); break; }
+        }
+        if (sp.precision >= 0) {
+            if (!c.invalid_mode)      // cut only at character boundaries
+                while (sp.precision > 0 && (size_t)sp.precision < text.size() && ((unsigned char)text[(size_t)sp.precision] & 0xC0) == 0x80) sp.precision--;
+            if ((size_t)sp.precision < shown) shown = (size_t)sp.precision;
+        }
+        if (r.chance(30)) {          // items that mean nothing for text: the rendering is still the text
+            sp.hash = r.flag(); sp.plus = r.flag();
+            if (r.flag()) sp.cls = "dxXobc"[r.range(0, 5)];
+            c.ignored = true;
+        }
+        ignored_letters();
+        pick_width(shown);
+    }
+    std::string f = fg::print_spec(sp, &r);
+    if (fcls) { if (r.flag()) f.insert(f.size() - 1, 1, fcls); else f.insert(1, 1, fcls); }
+    return f;
+}
+
+// Literal text between fields: short items as in the base generator, plus runs of several KB with exact output sizes.
+void xgen_literal(verif::Reader &r, XCtx &c, std::string &fmt, size_t maxitems, bool allow_long) {
+    size_t n = r.range(0, maxitems);
+    for (size_t i = 0; i < n; i++) {
+        uint8_t b = r.u8();
+        if (b < 110) { static const char asc[] = "abcxyz ,:=|019XQ-_.&#+<>"; fmt += asc[b % (sizeof asc - 1)]; }
+        else if (b < 140) fmt += "{{";
+        else if (b < 170) fmt += "}}";
+        else if (b < 190) fmt += "}";
+        else if (b < 236 || !allow_long || c.longlits >= 2) fmt += ref::utf8_of(fg::kScalars[b % (sizeof fg::kScalars / sizeof fg::kScalars[0])]);
+        else {
+            struct Pat { const char *src; size_t outlen; };
+            static const Pat pats[] = {{"a", 1}, {"abcdefghij", 10}, {"xy{{", 3}, {"}}z", 2}, {"\xC3\xA9", 2}, {"-\xE2\x82\xAC", 4}, {"\xF0\x9F\x98\x80", 4}, {"0123456789ABCDEF", 16}, {"q}}{{", 3}};
+            static const uint16_t targets[] = {4096, 255, 256, 257, 1023, 1024, 1025, 4095, 4097, 8191, 8192, 8193, 3000, 20000};
+            const Pat &p = r.pick(pats); size_t target = r.pick(targets), out = 0;
+            while (out + p.outlen <= target) { fmt += p.src; out += p.outlen; }
+            while (out < target) { fmt += 'q'; out++; }
+            c.longlits++; c.longlit = true;
+        }
+    }
+}
+
+// fixed C++ signatures for typed multi-argument calls (every argument in its own type, copied by the library's formatter table)
+struct SigSlot { int kind; fg::Ty ty; };
+const SigSlot kSigA[] = {{XK_VALUE, fg::T_INT}, {XK_VALUE, fg::T_CSTR}, {XK_VALUE, fg::T_STSTRING}, {XK_VALUE, fg::T_BOOL}, {XK_VALUE, fg::T_CHAR}, {XK_VALUE, fg::T_ULLONG},
+                         {XK_VALUE, fg::T_SV}, {XK_VALUE, fg::T_WCSTR}, {XK_VALUE, fg::T_U16STRING}, {XK_VALUE, fg::T_CHAR32}, {XK_VALUE, fg::T_LONG}, {XK_VALUE, fg::T_SHORT}};
+const SigSlot kSigB[] = {{XK_VALUE, fg::T_STDSTRING}, {XK_VALUE, fg::T_LLONG}, {XK_VALUE, fg::T_UCHAR}, {XK_VALUE, fg::T_U16CSTR}, {XK_VALUE, fg::T_U32SV}, {XK_VALUE, fg::T_WCHAR},
+                         {XK_VALUE, fg::T_U8STRING}};
+const SigSlot kSigC[] = {{XK_CHARBUF, fg::T_INT}, {XK_PATH, fg::T_INT}, {XK_RIGHT, fg::T_INT}, {XK_VALUE, fg::T_SCHAR}, {XK_VALUE, fg::T_UINT}, {XK_VALUE, fg::T_U8CSTR}};
+const char *kSigNames[] = {"(int, const char*, ST::string, bool, char, unsigned long long, std::string_view, const wchar_t*, std::u16string, char32_t, long, short) lvalues",
+                           "(std::string, long long, unsigned char, const char16_t*, std::u32string_view, wchar_t, std::u8string) rvalues",
+                           "(ST::char_buffer, std::filesystem::path, user type, signed char, unsigned, const char8_t*) lvalues"};
+
+Outcome call_sig(int sig, int e, const char *fs, size_t n, const std::vector<XArg> &a) {
+    auto V = [&](size_t i) -> const fg::Value & { return a[i].v; };
+    if (sig == 0) {
+        int a0 = (int)V(0).s; const char *a1 = V(1).xc->data(); const ST::string &a2 = V(2).st; bool a3 = V(3).b;
+        char a4 = std::is_signed<char>::value ? (char)V(4).s : (char)V(4).u; unsigned long long a5 = V(5).u; std::string_view a6(V(6).xc->data(), V(6).xc->size());
+        const wchar_t *a7 = V(7).xw->data(); const std::u16string &a8 = V(8).s16; char32_t a9 = (char32_t)V(9).u; long a10 = (long)V(10).s; short a11 = (short)V(11).s;
+        return call_entry_typed(e, fs, n, a0, a1, a2, a3, a4, a5, a6, a7, a8, a9, a10, a11);
+    }
+    if (sig == 1) {
+        const wchar_t w = std::is_signed<wchar_t>::value ? (wchar_t)V(5).s : (wchar_t)V(5).u;
+        if (e == E_UDL)
+            return observe([&] { return ST::literals::operator""_stfmt(fs, n)(std::string(V(0).ss), (long long)V(1).s, (unsigned char)V(2).u, (const char16_t *)V(3).x16->data(),
+                                                                              std::u32string_view(V(4).x32->data(), V(4).x32->size()), wchar_t(w), std::u8string(V(6).s8)); });
+        return observe([&] { return ST::format(fs, std::string(V(0).ss), (long long)V(1).s, (unsigned char)V(2).u, (const char16_t *)V(3).x16->data(),
+                                               std::u32string_view(V(4).x32->data(), V(4).x32->size()), wchar_t(w), std::u8string(V(6).s8)); });
+    }
+    cx::Right a2{V(2).xc->data(), V(2).xc->size()}; signed char a3 = (signed char)V(3).s; unsigned a4 = (unsigned)V(4).u; const char8_t *a5 = reinterpret_cast<const char8_t *>(V(5).xc->data());
+    return call_entry_typed(e, fs, n, a[0].cb, a[1].path, a2, a3, a4, a5);
+}
+
+// real user-defined literals (the format text is part of the program); arguments (int, const char*)
+#define C11_UDL_TABLE(X) X(0, "v={} s={}") X(1, "[{>12_*}|{<6}]") X(2, "{&2}{{{&1}}}{&2.2}") X(3, "{+#012x}/{_.>9.3}/{&1c}") X(4, "") X(5, "}}{{ no field")
+const char *udl_text(int i) {
+    switch (i) {
+#define X(i, s) case i: return s;
+    C11_UDL_TABLE(X)
+#undef X
+    default: return "";
+    }
+}
+Outcome udl_call(int i, int a0, const char *a1) {
+    using namespace ST::literals;
+    switch (i) {
+#define X(i, s) case i: return observe([&] { return s##_stfmt(a0, a1); });
+    C11_UDL_TABLE(X)
+#undef X
+    default: return Outcome();
+    }
+}
+const int kNumUdl = 6;
+
+// Decodes one extended call.  Every choice is read from r; exhausted input gives the simplest call of sub-mode 0.
+void decode_xcall(verif::Reader &r, XCall &k) {
+    XCtx &c = k.c;
+    k.sub = (int)r.range(0, 6);
+    c.invalid_mode = r.chance(16);
+    std::vector<int> sel;      // per field: 0 sequential, else &N
+    size_t nargs = 0;
+    auto plan_fields = [&](size_t nfields, bool want_multiref) {
+        size_t seq = 0, hot = r.idx(nargs);
+        int hotrefs = 0;
+        for (size_t i = 0; i < nfields; i++) {
+            unsigned ch = (unsigned)r.range(0, 3);
+            if (ch <= 1 && seq < nargs) { sel.push_back(0); seq++; }
+            else if (ch == 2 && want_multiref) { sel.push_back((int)hot + 1); hotrefs++; }
+            else { size_t a = nargs >= 10 && r.flag() ? nargs - 1 - r.idx(nargs - 8) : r.idx(nargs); sel.push_back((int)a + 1); }
+            if (sel.back() >= 10) c.bigindex = true;
+        }
+        if (hotrefs >= 2) c.multiref = true;
+    };
+    bool allow_long = false;
+    switch (k.sub) {
+    case 0: {     // 6..12 arguments of every kind, 6..16 fields, one argument referenced several times
+        nargs = 6 + r.range(0, 6);
+        k.args.resize(nargs);
+        for (XArg &x : k.args) xgen_arg(r, c, x, false, false);
+        plan_fields(6 + r.range(0, 10), true);
+        c.manyargs = true;
+        break; }
+    case 1: {     // fixed C++ signature, all arguments in their own types
+        k.sig = (int)r.range(0, 2);
+        const SigSlot *s = k.sig == 0 ? kSigA : k.sig == 1 ? kSigB : kSigC;
+        nargs = k.sig == 0 ? 12 : k.sig == 1 ? 7 : 6;
+        k.args.resize(nargs);
+        for (size_t i = 0; i < nargs; i++) { if (s[i].kind == XK_VALUE) xset_value(r, c, k.args[i], s[i].ty, false); else xset_kind(r, c, k.args[i], s[i].kind, false); }
+        plan_fields(1 + r.range(0, 13), true);
+        c.typedsig = true; c.manyargs = true;
+        break; }
+    case 2: {     // one argument of a kind the base generator does not have, passed in its own type
+        nargs = 1; k.args.resize(1);
+        xgen_arg(r, c, k.args[0], true, true);
+        size_t nf = 1 + r.range(0, 2);
+        sel.push_back(0); for (size_t i = 1; i < nf; i++) sel.push_back(1);
+        if (nf >= 3) c.multiref = true;
+        allow_long = true;
+        break; }
+    case 3: {     // long: literal runs of several KB, padding runs up to 16 K, text arguments of several K characters
+        nargs = 1 + r.range(0, 2); k.args.resize(nargs);
+        for (XArg &x : k.args) xgen_arg(r, c, x, true, false);
+        plan_fields(1 + r.range(0, 3), false);
+        allow_long = true;
+        break; }
+    case 4: {     // no field at all (0..2 unused arguments)
+        nargs = r.range(0, 2); k.args.resize(nargs);
+        for (XArg &x : k.args) xgen_arg(r, c, x, false, false);
+        allow_long = true; c.nofields = true;
+        break; }
+    case 5: {     // 1..5 arguments of every kind
+        nargs = 1 + r.range(0, 4); k.args.resize(nargs);
+        for (XArg &x : k.args) xgen_arg(r, c, x, false, false);
+        plan_fields(1 + r.range(0, 4), true);
+        break; }
+    default: {    // a real "..."_stfmt literal with (int, const char*)
+        nargs = 2; k.args.resize(2);
+        xset_value(r, c, k.args[0], fg::T_INT, false);
+        xset_value(r, c, k.args[1], fg::T_CSTR, false);
+        k.sig = 100 + (int)r.idx(kNumUdl);
+        k.fmt = udl_text(k.sig - 100);
+        c.udl_literal = true;
+        return; }
+    }
+    for (size_t i = 0; i < sel.size(); i++) {
+        xgen_literal(r, c, k.fmt, i == 0 ? 3 : 4, allow_long);
+        size_t a;
+        if (sel[i] == 0) { a = 0; for (size_t j = 0; j < i; j++) if (sel[j] == 0) a++; } else a = (size_t)sel[i] - 1;
+        k.fmt += xgen_field(r, c, k.args[a], sel[i]);
+    }
+    xgen_literal(r, c, k.fmt, k.sub == 4 ? 6 : 3, allow_long);
+}
+
+void label_xcall(const XCall &k, verif::Case &c) {
+    const XCtx &x = k.c;
+    c.label("extended-call");
+    if (x.udl_literal) c.label("x:real-_stfmt-literal");
+    if (x.typedsig) c.label("x:typed-multi-argument-signature");
+    if (x.bigindex) c.label("x:&N>=10");
+    else if (x.manyargs) c.label("x:6..12-arguments");
+    if (x.multiref) c.label("x:one-argument-several-fields");
+    if (x.nul) c.label("x:text-with-embedded-NUL");
+    if (x.buffer) c.label("x:ST-buffer-or-null-argument");
+    if (x.path) c.label("x:filesystem-path-argument");
+    if (x.right_default) c.label("x:user-type-format_string-right-default");
+    else if (x.custom) c.label("x:user-type-format_type");
+    if (x.macro) c.label("x:user-type-deprecated-macros");
+    if (x.char8c) c.label("x:char8_t-class-c-ascii");
+    if (x.bigpad) c.label("x:pad-run-32..16385");
+    if (x.longlit) c.label("x:literal-run-255..20000");
+    if (x.long_text) c.label("x:text-argument-255..4097-chars");
+    if (x.nofields) c.label("x:no-field");
+    if (x.ignored) c.label("x:items-without-effect");
+    if (x.prec_num) c.label("x:precision-on-number-or-char");
+}
+
+std::string show_xcall(const XCall &k, const ref::Result &want) {
+    std::string t = "C11x[" + verif::num(k.sub) + "] ";
+    if (k.sig >= 100) t += "real literal "; else if (k.sig >= 0) t += std::string("signature ") + kSigNames[k.sig] + " ";
+    t += "fmt=" + verif::quoted(k.fmt, 200) + " args=(";
+    for (size_t i = 0; i < k.args.size(); i++) { if (i) t += ", "; t += k.args[i].show(); }
+    t += ") -> " + (want.kind == ref::OK ? verif::quoted(want.out, 160) : std::string(ref::kind_name(want.kind)));
+    return t;
+}
+
+// All entry points for one extended call.  Returns "" when the property holds.
+std::string check_xcall(const XCall &k, const ref::Result &want) {
+    verif::Exact<char> f(k.fmt.data(), k.fmt.size(), true);
+    const char *fs = f.data(); const size_t n = k.fmt.size();
+    const bool strict = ref::utf8_valid_strict(want.out);
+    bool ascii = true; for (unsigned char ch : want.out) if (ch >= 0x80) { ascii = false; break; }
+    for (int e = 0; e < E_COUNT; e++) {
+        if (e == E_LATIN1 && !ascii) continue;
+        Outcome o = xcall_n(k.args, [&](auto... x) { return call_entry(e, fs, n, x...); });
+        std::string why = judge(e, o, want.out, strict, "argument list");
+        if (!why.empty()) return why;
+    }
+    if (k.args.size() == 1)
+        for (int e : {E_FORMAT, E_UDL}) {
+            Outcome o = xvisit(k.args[0], [&](const auto &x) { return call_entry_typed(e, fs, n, x); });
+            std::string why = judge(e, o, want.out, strict, "argument in its own type");
+            if (!why.empty()) return why;
+        }
+    if (k.sig >= 0 && k.sig < 100)
+        for (int e : {E_FORMAT, E_UDL}) {
+            std::string why = judge(e, call_sig(k.sig, e, fs, n, k.args), want.out, strict, "typed signature");
+            if (!why.empty()) return why;
+        }
+    if (k.sig >= 100) {
+        std::string why = judge(E_UDL, udl_call(k.sig - 100, (int)k.args[0].v.s, k.args[1].v.xc->data()), want.out, strict, "real literal");
+        if (!why.empty()) return why;
+    }
+    return std::string();
+}
+
+// ----- directed pad-run points (first byte 0xFD): a padding run of exactly B-1, B, B+1 characters in every layout ----------
+const int kRunBlocks[] = {32, 64, 256, 1024, 4096, 8192, 16384};
+const int kPadRunDims[4] = {7, 3, 8, 3};
+void padrun_build(int bi, int di, int layout, int pm, XCall &k) {
+    const int run = kRunBlocks[bi] + di - 1;
+    k.args.resize(1); XArg &x = k.args[0];
+    fg::PSpec sp;
+    if (pm == 1) sp.pad = '*'; else if (pm == 2) sp.pad = '0';
+    auto text = [&](fg::Ty t, const char *s) { std::vector<uint32_t> cps; for (; *s; s++) cps.push_back((unsigned char)*s); x.kind = XK_VALUE; x.v.set_text(t, cps); x.ra = refx::Arg::plain(ref::Arg::str(x.v.utf8)); };
+    switch (layout) {
+    case 0: x.v.set_int(fg::T_INT, (unsigned long long)-1234ll); x.ra = refx::Arg::plain(x.v.to_ref()); break;                             // number, default (right)
+    case 1: x.v.set_int(fg::T_INT, (unsigned long long)-1234ll); x.ra = refx::Arg::plain(x.v.to_ref()); sp.align = 1; break;               // number, left
+    case 2: x.v.set_int(fg::T_ULONG, pm == 0 ? 255 : pm == 1 ? 0 : ~0ull); x.ra = refx::Arg::plain(x.v.to_ref()); sp.pad = -1; sp.zero = true; sp.plus = true; sp.hash = true; sp.cls = 'x'; break;
+    case 3: x.v.set_int(fg::T_LLONG, 1ull << 63); x.ra = refx::Arg::plain(x.v.to_ref()); sp.align = 2; sp.hash = true; sp.cls = 'b'; break;   // 64 binary digits + sign + prefix
+    case 4: text(fg::T_CSTR, "ab"); break;                                                                                               // text, default (left)
+    case 5: x.kind = XK_VALUE; x.v.set_text(fg::T_STSTRING, {'a', 'b', 0x20AC}); x.ra = refx::Arg::plain(ref::Arg::str(x.v.utf8)); sp.align = 2; break;      // text, right
+    case 6: x.v.set_bool(true); x.ra = refx::Arg::plain(x.v.to_ref()); break;
+    default: { std::vector<uint32_t> cps = {'x', 'y', 'z'}; x.kind = XK_RIGHT; x.v.set_text(fg::T_SV, cps); x.ra = refx::Arg::text_right(x.v.utf8); sp.precision = 2; break; }
+    }
+    std::vector<refx::Arg> ra(1, x.ra);
+    size_t natural = refx::interpret(fg::print_spec(sp, nullptr, 0), ra).out.size();
+    sp.width = (int)natural + run;
+    k.fmt = "<" + fg::print_spec(sp, nullptr, 0) + ">";
+    k.sub = 9; k.c.bigpad = true;
+}
+
 }  // namespace
 
 int verif_case(const uint8_t *data, size_t size, Case &c) {
@@ -148,6 +736,26 @@ int verif_case(const uint8_t *data, size_t size, Case &c) {
         fmt = "{c}";
         direct = true;
         c.label("directed-char-class");
+    } else if (first >= 0xE0) {                       // 0xFD: directed pad-run point; 0xE0..0xFC: extended call
+        r.u8();
+        XCall k;
+        if (first == 0xFD) {
+            int q[4]; for (int i = 0; i < 4; i++) q[i] = (int)(r.u8() % kPadRunDims[i]);
+            padrun_build(q[0], q[1], q[2], q[3], k);
+            c.label("directed-pad-run-point");
+        } else {
+            decode_xcall(r, k);
+            label_xcall(k, c);
+        }
+        for (const XArg &a : k.args) if (a.unusable) return verif::CASE_DISCARD;
+        ref::Result want = refx::interpret(k.fmt, k.rargs());
+        if (c.want_text) c.text = show_xcall(k, want);
+        if (want.kind != ref::OK || want.unmodelled) { c.label("generator-produced-non-output"); return verif::CASE_DISCARD; }
+        c.nontrivial = nontrivial_of(want);
+        if (!ref::utf8_valid_strict(want.out)) c.label("result-not-strict-utf8");
+        std::string why = check_xcall(k, want);
+        if (!why.empty()) return c.fail(why);
+        return verif::CASE_OK;
     } else {
         fg::Call k;
         fg::Options opt;
@@ -203,6 +811,27 @@ long verif_enumerate(int shard, int nshards, int tier, verif::EnumReport &r) {
             }
         }
     }
+    // pad-run points: a padding run of exactly B-1, B, B+1 characters for B in {32,64,256,1024,4096,8192,16384} x 8 layouts x 3 pad modes,
+    // through every entry point (ST::format with and without validation argument, _stfmt, format_latin_1) and the typed call
+    {
+        const int total = kPadRunDims[0] * kPadRunDims[1] * kPadRunDims[2] * kPadRunDims[3];
+        uint8_t pc[5];
+        for (int idx = shard; idx < total; idx += nshards) {
+            int q[4], t = idx; for (int i = 3; i >= 0; i--) { q[i] = t % kPadRunDims[i]; t /= kPadRunDims[i]; }
+            pc[0] = 0xFD; for (int i = 0; i < 4; i++) pc[1 + i] = (uint8_t)q[i];
+            verif::set_current(pc, sizeof pc);
+            XCall k; padrun_build(q[0], q[1], q[2], q[3], k);
+            ref::Result want = refx::interpret(k.fmt, k.rargs());
+            if (want.kind != ref::OK) continue;
+            r.evaluations++;
+            if (nontrivial_of(want)) r.nontrivial++;
+            std::string why = check_xcall(k, want);
+            if (!why.empty()) { r.failure = why; r.failing_case = show_xcall(k, want); r.failing_bytes.assign(pc, pc + sizeof pc); return r.evaluations; }
+        }
+    }
+    if (shard == 0)
+        r.exhausted.push_back("pad-run points: padding runs of B-1, B, B+1 characters, B in {32,64,256,1024,4096,8192,16384} x {int default/left, '+#0' hex of 255/0/max, 64-digit binary min, "
+                              "const char* default, ST::string right, bool, user type with right default and precision} x pad {space,'*','0'}, all six entry points plus the typed call");
     if (shard == 0)
         r.exhausted.push_back("integer sweep: 15 integer/character types x {0,+-1,+-9,+-10,+-255,7,8,-8,15,+-16,100,min,min+1,max-1,max} (values the type holds) x alignment {none,<,>} x "
                               "pad {none,_*,0 flag,_0} x width {0,natural-1,natural,natural+1,natural+5,40} x '#' x '+' x class {none,d,x,X,o,b} x 2 part orders (over all shards)");
@@ -212,4 +841,6 @@ long verif_enumerate(int shard, int nshards, int tier, verif::EnumReport &r) {
 void verif_corpus(std::vector<std::vector<uint8_t>> &out) {
     out.push_back({0xFF, 4, 8, 1, 2, 3, 1, 1, 2, 0});
     out.push_back({0, 2, 0, 200, 0, 0, 1, 3, 5, 9, 1, 1, 2, 2, 2, 3, 3, 3});
+    out.push_back({0xFD, 4, 1, 2, 0});
+    for (uint8_t sub = 0; sub <= 6; sub++) out.push_back({0xE0, sub, 0, 3, 10, 1, 12, 2, 13, 0, 15, 4, 11, 0, 5, 1, 2, 200, 2, 1, 9, 250, 3, 7, 1, 1, 2, 3, 4, 5, 6, 7, 8, 9});
 }
